@@ -32,7 +32,7 @@ class Live:
     # ---- model kinds ---------------------------------------------------------------------
     def _build_aero2(self):
         self.surfs = [
-            dict(name="wing", nx=3, ny=3, sym=True, side="L", shape="all", visc=True, wave=True, sref="projected", refax=1, klam=1),
+            dict(name="wing", nx=4, ny=3, sym=True, side="L", shape="all", visc=True, wave=True, sref="projected", refax=1, klam=1),  # nx > ny: size-relation-dependent resets (s164)
             dict(name="tail", nx=2, ny=3, sym=False, side="F", shape="tapered", span=4.0, chord=0.8, off=(5.0, 0.0, 0.6), visc=True, sref="wetted"),
         ]
         self.m = B.AeroModel(self.surfs, rotational=True, mode=self.mode)
